@@ -278,3 +278,28 @@ func backSliceAllocs(v ssa.Value, throughCalls bool) map[ssa.Value]bool {
 	}
 	return seen
 }
+
+// terminators: the module functions that raise a context termination, i.e.
+// contain panic(v) with v a runtime.ContextTerminationError (found by what they
+// do, not by name: TerminateContext, or the helper it shares with the
+// budget checks).
+func (p *Program) terminators() map[*ssa.Function]bool {
+	out := map[*ssa.Function]bool{}
+	cte := p.TypeNamed("runtime", "ContextTerminationError")
+	if cte == nil {
+		return out
+	}
+	for _, f := range p.ModFuncs() {
+		if f.Blocks == nil || f.Synthetic != "" {
+			continue
+		}
+		forEachInstr(f, func(ins ssa.Instruction) {
+			if pn, ok := ins.(*ssa.Panic); ok {
+				if mi, ok := pn.X.(*ssa.MakeInterface); ok && types.Identical(mi.X.Type(), cte) {
+					out[f] = true
+				}
+			}
+		})
+	}
+	return out
+}
